@@ -2,4 +2,4 @@ INIT Init
 NEXT Next
 INVARIANT Emit
 CHECK_DEADLOCK FALSE
-CONSTANTS MaxLen = 5  Stride = 30
+CONSTANTS MaxLen = 4  Stride = 40
